@@ -293,6 +293,8 @@ def judge(chk, case, mvals):
                     f"{[float(x) for x in got2[bad][1]][:6]} instead of 2^-600 times {[str(x) for x in ref[1][bad][1]][:6]}"),
                     dict(rep, scaled=True))
                 return False
+        if a["what"] == "jac" and not mixed_inputs_probe(chk, prog, a, ref, rep):
+            return False
         mcode, (mkind, mitems) = mv
         mi = {k: ajlib.parse_tens(tp) for (k, tp) in mitems}
         chk.cov["traces_validated_against_impl"] += 1
@@ -301,6 +303,47 @@ def judge(chk, case, mvals):
                           f"(code {mcode}); theorems of props/C15.v no longer describe the code",
                           dict(rep, model=str(mi)[:800]), no_input=True)
             return False
+    return True
+
+
+def mixed_inputs_probe(chk, prog, a, ref, rep):
+    """Jac with inputs of DIFFERENT float dtypes, the narrower one listed first: a float32 leaf that the float64
+    computation upcasts at once, next to float64 inputs; cotangents multiplied by 2^24 + 1 (an integer float32
+    cannot hold).  The float64 inputs receive their rows at float64 accuracy (the dtype of the result is not
+    fixed by the property: the code concatenates all inputs' gradients, which promotes to the widest)."""
+    outs, ins, k = a["args"]
+    leaves = [i for i in ins if prog.is_leaf[i] and prog.req[i]]
+    if len(ins) < 2 or not leaves:
+        return True
+    first = leaves[0]
+    order = [first] + [i for i in ins if i != first]
+    ts = prog.build(torch.float64, narrow={first})
+    c = 2 ** 24 + 1
+    a2 = dict(a, **{"in": {kk: (v[0], [x * c for x in v[1]]) for kk, v in a["in"].items()}})
+    try:
+        out = Jac([ts[o] for o in outs], [ts[i] for i in order], k, retain_graph=True)(t_dict(Jacobians, a2["in"], ts))
+        err = None
+    except Exception as e:  # noqa: BLE001
+        out, err = None, type(e).__name__
+    chk.note("mixed_dtype_inputs_probe")
+    bad = None
+    if err is not None:
+        bad = f"raised {err}"
+    else:
+        for i in order:
+            v = out[ts[i]]
+            exp = [float(x) * c for x in ref[1][i][1]]
+            got = [float(x) for x in v.reshape(-1).tolist()]
+            tol = 1e-6 if i == first else 1e-13
+            if len(got) != len(exp) or any(abs(g - e) > tol * max(1.0, abs(e)) for g, e in zip(got, exp)):
+                bad = (f"output for the {ts[i].dtype} input {i} is {got[:6]} instead of {exp[:6]} "
+                       f"(relative tolerance {tol})")
+            if bad:
+                break
+    if bad:
+        chk.violation(f"C15 jac{a['args']} with a float32 input listed before float64 ones (cotangents x (2^24+1)): "
+                      + bad, dict(rep, mixed=True))
+        return False
     return True
 
 
